@@ -216,42 +216,39 @@ Proof.
 Qed.
 Print Assumptions c06_stream_chains.
 
-(* time stamps: with e0 the first frame of a track, every frame e of the track
-   has DTS = dts0(e) - dts0(e0) when dts0(e) >= dts0(e0) - one constant per
-   track - and PTS = DTS + 90 * CTS (uint64); dts0 = 90 * RTMP time stamp
-   (c06_video_message, c06_audio_frames).  C09 adds 63000 modulo 2^33. *)
+(* time stamps: with e0 the first frame of a track, EVERY frame e of the track
+   has DTS = dts0(e) - dts0(e0) on the 33-bit clock of MPEG-TS - one constant
+   per track, also for a time stamp below the first one (clock restart of the
+   publisher, wrap of the 32-bit RTMP time stamp) - plainly dts0(e) - dts0(e0)
+   when dts0(e) >= dts0(e0), and PTS = DTS + 90 * CTS (uint64); dts0 = 90 * RTMP
+   time stamp (c06_video_message, c06_audio_frames).  C09 adds 63000 modulo 2^33. *)
 Theorem c06_ts_timestamps : forall O (dec : O -> tsev -> bool) (app : O -> tsev -> list tsev -> O) (pp : O -> bytes -> O)
     acts o x' o' outs audio e0 rest e,
   run_actions O dec app pp remuxer_init o acts = (x', o', outs) ->
   track_evs audio (ts_events outs) = e0 :: rest -> te_dts0 e0 <> max_u64 -> In e (e0 :: rest) ->
-  te_dts0 e0 <= te_dts0 e ->
-  f_dts (te_frame e) = te_dts0 e - te_dts0 e0
+  (f_dts (te_frame e) + te_dts0 e0) mod 8589934592 = te_dts0 e mod 8589934592
+  /\ (te_dts0 e0 <= te_dts0 e -> f_dts (te_frame e) = te_dts0 e - te_dts0 e0)
   /\ f_pts (te_frame e) = u64 (f_dts (te_frame e) + 90 * te_cts e).
 Proof.
-  intros O dec app pp acts o x' o' outs audio e0 rest e H Ht Hb Hin Hle.
+  intros O dec app pp acts o x' o' outs audio e0 rest e H Ht Hb Hin.
   destruct (run_invariant O dec app pp acts o x' o' outs H) as (Hc & _).
-  destruct (track_times audio _ _ e0 rest e Hc Ht Hb Hin) as (Hd & Hp). split; [|exact Hp].
-  rewrite Hd. destruct (te_dts0 e <? te_dts0 e0) eqn:E; [apply N.ltb_lt in E; lia|reflexivity].
+  destruct (track_times audio _ _ e0 rest e Hc Ht Hb Hin) as (Hd & Hp). rewrite Hd.
+  split; [apply rebase_dts_mod|]. split; [apply rebase_dts_ge|]. now rewrite <- Hd.
 Qed.
 Print Assumptions c06_ts_timestamps.
 
-(* F-23: the hypothesis dts0(e0) <= dts0(e) cannot be dropped.  A frame stamped
-   below the first frame of its track keeps its un-rebased DTS: 1000 ms then
-   500 ms come out as DTS 0 and 45000 - the difference is +45000 ticks instead
-   of -45000 (no constant of the track fits both). *)
+(* F-23 (fixed in lal): the pinned filter left a time stamp below the base as it
+   was: base 90000 (1000 ms), a frame at 45000 (500 ms) stayed 45000 where the
+   clock constant asks for 45000 - 90000 mod 2^33 *)
+Theorem c06_ts_timestamps_below_base_pinned_refuted :
+  exists b d, snd (rebase_pinned b d) = d /\ d < b
+    /\ (snd (rebase_pinned b d) + b) mod 8589934592 <> d mod 8589934592.
+Proof. exact rebase_pinned_refuted. Qed.
+Print Assumptions c06_ts_timestamps_below_base_pinned_refuted.
+
+(* sample messages used by the examples below *)
 Definition f23_vsh : rmsg := mk_rmsg 9 1000 [23;0;0;0;0; 1;100;0;31;255; 225;0;4; 103;100;0;31; 1;0;2; 104;238].
 Definition f23_ash : rmsg := mk_rmsg 8 1000 [175; 0; 18; 16].
-Definition f23_v1 : rmsg := mk_rmsg 9 1000 [23;1;0;0;0; 0;0;0;2; 101;136].
-Definition f23_v2 : rmsg := mk_rmsg 9 500 [39;1;0;0;0; 0;0;0;2; 65;154].
-Theorem c06_ts_timestamps_below_base_refuted :
-  exists e1 e2,
-    track_evs false (ts_events (run_scripted [] [AMsg f23_vsh; AMsg f23_ash; AMsg f23_v1; AMsg f23_v2])) = [e1; e2]
-    /\ te_dts0 e1 = 90000 /\ te_dts0 e2 = 45000
-    /\ f_dts (te_frame e1) = 0 /\ f_dts (te_frame e2) = 45000
-    /\ (f_dts (te_frame e2) + 8589934592 - f_dts (te_frame e1)) mod 8589934592
-       <> (te_dts0 e2 + 8589934592 - te_dts0 e1) mod 8589934592.
-Proof. eexists. eexists. split; [vm_compute; reflexivity|]. vm_compute. repeat split; congruence. Qed.
-Print Assumptions c06_ts_timestamps_below_base_refuted.
 
 (* PAT / PMT first and once: the output of any run is empty (the probe is still
    collecting) or starts with PackPat ++ PackPmt(v, a) - which C09 proved to be
